@@ -51,7 +51,8 @@ def BOUNDS(tier):
             "seeds": [1, 2] if tier == "quick" else [1, 2, 3], "ops": OPS, "depth": 5 if tier == "quick" else 10,
             "vk_n_columns": [2] if tier == "quick" else [1, 2, 3],
             "fried_stencil_length_factor": [4] if tier == "quick" else [1, 2, 4],
-            "stability_sizes": list(range(2, 7 if tier == "quick" else 13))}
+            "stability_sizes": list(range(2, 7 if tier == "quick" else 13)),
+            "big_sizes(depth 3 histories)": [33, 64, 65]}
 
 
 def cases(tier):
@@ -77,6 +78,11 @@ def cases(tier):
             yield Case("hist:%s:n=%d:ps=%g,r0=%g,L0=%g:seed=%d:sd=%d" % ((variant, n) + atm + (seed, sd)),
                        {"kind": "hist", "variant": variant, "n": n, "atm": list(atm), "seed": seed, "sd": sd,
                         "depth": b["depth"] + 3}, True)
+    # size classes above the exhaustive sizes (LAPACK / BLAS block sizes; Fried's stencil has a row every 2^k)
+    for variant, n, sd in (("vk", 33, 2), ("vk", 64, 2), ("vk", 65, 3), ("fried", 33, 4), ("fried", 64, 2), ("fried", 65, 4)):
+        yield Case("hist:%s:n=%d:big:sd=%d" % (variant, n, sd),
+                   {"kind": "hist", "variant": variant, "n": n, "atm": list(ATMOS[0]), "seed": 1, "sd": sd,
+                    "depth": 3}, True)
     for n in b["stability_sizes"]:
         for ai, atm in enumerate(ATMOS):
             for nc in ([2] if tier == "quick" else [1, 2, 3]):
